@@ -1,6 +1,8 @@
 package main
 
 import (
+	"path/filepath"
+	"context"
 	"flag"
 	"fmt"
 	"os"
@@ -101,8 +103,64 @@ var (
 // discharge runs the solver on every obligation that is not syntactically decided.
 func discharge(obls []*Obligation, timeoutMs int) {
 	var wg sync.WaitGroup
+	var coverLater []func()
 	for _, o := range obls {
 		if o.Res.Status != "" {
+			continue
+		}
+		if o.Kind == "cover" {
+			o := o
+			// terms are built on this goroutine only (the term table is not concurrent); the first paths are solved in
+			// parallel with everything else, the rare remainder afterwards
+			coverText := func(pc []*Term) string {
+				as := append(append([]*Term{}, pc...), canonFacts(pc)...)
+				used := usedSymbols(as)
+				for _, w := range o.Without {
+					delete(used, w)
+				}
+				return Script(as, buildPrelude(used), nil)
+			}
+			t := 1500
+			if timeoutMs < t {
+				t = timeoutMs
+			}
+			solveCover := func(text string) bool {
+				coverSem <- struct{}{}
+				st, _, secs := runOne(context.Background(), solverSpecs[0], writeQuery(text), t)
+				<-coverSem
+				if st != "unsat" {
+					// sat, or not refuted within the time: the path is not contradictory as far as the solver can tell
+					o.Res = SolverResult{Status: "unsat", Solver: "cover:" + st, Seconds: secs}
+					return true
+				}
+				return false
+			}
+			var first []string
+			for i := 0; i < len(o.coverPaths) && i < 3; i++ {
+				first = append(first, coverText(o.coverPaths[i]))
+			}
+			o.Res = SolverResult{Status: "sat", Solver: "cover"}
+			wg.Add(1)
+			go func() {
+				defer wg.Done()
+				for _, text := range first {
+					if solveCover(text) {
+						return
+					}
+				}
+			}()
+			if len(o.coverPaths) > 3 {
+				coverLater = append(coverLater, func() {
+					if o.Res.Status == "unsat" {
+						return
+					}
+					for _, pc := range o.coverPaths[3:] {
+						if solveCover(coverText(pc)) {
+							return
+						}
+					}
+				})
+			}
 			continue
 		}
 		if o.Goal == TFalse && len(o.Assumes) == 0 {
@@ -164,6 +222,9 @@ func discharge(obls []*Obligation, timeoutMs int) {
 		}()
 	}
 	wg.Wait()
+	for _, f := range coverLater {
+		f()
+	}
 	// undecided queries are retried one at a time on an otherwise idle machine with twice the timeout:
 	// a timeout caused by load must not turn into an alarm
 	if len(retry) > 0 && len(retry) <= 6 {
@@ -335,6 +396,18 @@ var (
 type cacheEntry struct {
 	once sync.Once
 	res  SolverResult
+}
+
+var coverSem = make(chan struct{}, 8)
+
+func writeQuery(text string) string {
+	querySeqMu.Lock()
+	querySeq++
+	n := querySeq
+	querySeqMu.Unlock()
+	file := filepath.Join(scratchDir, fmt.Sprintf("c%d.smt2", n))
+	os.WriteFile(file, []byte(text), 0o644)
+	return file
 }
 
 func solveCached(text string, timeoutMs int) SolverResult {
